@@ -33,7 +33,7 @@ def Q(q, v, body):
 
 
 def is_term(t):
-    return isinstance(t, tuple) and t and t[0] in ('leaf', 'op', 'q', 'subst')
+    return isinstance(t, tuple) and t and t[0] in ('leaf', 'op', 'q', 'subst', 'negative')
 
 
 W_NODE = ('w',)                  # the world of the node the rule applies to (None in non-modal logics)
@@ -61,6 +61,8 @@ def fmt(t):
         return f'{t[1][0]}{t[2]}.{fmt(t[3])}'
     if t[0] == 'subst':
         return f'{fmt(t[1])}[{t[2][0]}]'
+    if t[0] == 'negative':
+        return f'-{fmt(t[1])}'
     return str(t)
 
 
@@ -437,6 +439,15 @@ class Eval:
                 return Op('Negation', v)
             if isinstance(e.op, ast.UAdd) and is_term(v):
                 return Op('Assertion', v)
+            if isinstance(e.op, ast.USub) and is_term(v):
+                # Sentence.negative(): strips a negation if there is one, else negates.  On a
+                # compound term the outcome is known; on an opaque operand it depends on whether
+                # the operand *is* a negation -- kept symbolic and decided both ways by sa.oblig.
+                if v[0] == 'op' and v[1] == 'Negation':
+                    return v[2][0]
+                if v[0] == 'leaf':
+                    return ('negative', v)
+                return Op('Negation', v)
             if isinstance(e.op, ast.Not):
                 if isinstance(v, bool) or v is None:
                     return not v
